@@ -15,7 +15,7 @@ use std::collections::{BTreeMap, HashMap};
 use std::hash::{Hash, Hasher};
 
 use common::{json, CaseOut, Fnv, Json, Rng, Session};
-use swimos_model::{Attr, BigInt, BigUint, Blob, Item, Value};
+use swimos_model::{Attr, BigInt, BigUint, Blob, Item, Text, Value};
 
 const P: &str = "C19";
 
@@ -624,6 +624,148 @@ fn main() {
                         let tie = dd.iter().any(|x| dd.iter().any(|y| int_float_tie(x, y)));
                         out.violation(P, if tie { "first-n-keys-differ/int-float-tie" } else { "first-n-keys-differ/other" }, "first n keys of the ordered map differ from the first n sorted keys of the hash map", json!({"n": nfirst}));
                     }
+                }
+            }
+        },
+    );
+
+    // Texts with the same characters reached through different histories of one buffer (the small-string
+    // representation keeps bytes inline; what an earlier, longer content left behind must not matter).
+    let cases = s.args.budget(30_000, 1_000_000);
+    s.part(
+        "text-histories",
+        "2-4 character strings (lengths around the inline/heap boundary, multi-byte characters), each built as a Text in up to 10 ways (fresh, from String, clone_from onto a longer inline / a heap / a shorter text, pushed together from pieces, clear + push_str, clone_from + push, Extend), wrapped as Value::Text, as an attribute name and as a slot key: values with the same characters are ==, compare Equal and hash alike whatever their history, and all pair laws hold across histories; distinct by the strings and histories drawn",
+        false,
+        cases,
+        |_i, rng, out| {
+            let alphabet: [&str; 12] = ["a", "b", "z", "0", " ", "é", "ß", "ノ", "ー", "\u{10348}", "_", "A"];
+            let mut mk_string = |rng: &mut Rng| -> String {
+                let len = *rng.pick(&[0usize, 1, 2, 3, 7, 11, 12, 15, 22, 23, 24, 25, 30, 40]);
+                let mut st = String::new();
+                while st.chars().count() < len {
+                    st.push_str(alphabet[rng.usize_below(alphabet.len())]);
+                }
+                st
+            };
+            let n_strings = rng.range(2, 4) as usize;
+            let mut strings: Vec<String> = (0..n_strings).map(|_| mk_string(rng)).collect();
+            // a strict prefix and an extension of the first string: near misses
+            if let Some(first) = strings.first().cloned() {
+                if first.chars().count() > 1 {
+                    let cut: String = first.chars().take(first.chars().count() - 1).collect();
+                    strings.push(cut);
+                }
+                strings.push(format!("{first}a"));
+            }
+            let build = |rng: &mut Rng, st: &str, how: u64| -> Text {
+                match how {
+                    0 => Text::new(st),
+                    1 => Text::from_string(st.to_string()),
+                    2 => {
+                        // onto a longer inline text
+                        let mut t = Text::new(&format!("{st}{}", &"xyzwvutsrqponmlkjihgfedcba"[..(23usize.saturating_sub(st.len())).min(26).max(1)]));
+                        t.clone_from(&Text::new(st));
+                        t
+                    }
+                    3 => {
+                        let mut t = Text::new(&"Q".repeat(64));
+                        t.clone_from(&Text::new(st));
+                        t
+                    }
+                    4 => {
+                        let mut t = Text::new("s");
+                        t.clone_from(&Text::new(st));
+                        t
+                    }
+                    5 => {
+                        let mut t = Text::empty();
+                        let chars: Vec<char> = st.chars().collect();
+                        let mut i = 0;
+                        while i < chars.len() {
+                            let k = (1 + rng.usize_below(4)).min(chars.len() - i);
+                            let piece: String = chars[i..i + k].iter().collect();
+                            t.push_str(&piece);
+                            i += k;
+                        }
+                        t
+                    }
+                    6 => {
+                        let mut t = Text::new(&format!("{st}-and-a-tail"));
+                        t.clear();
+                        t.push_str(st);
+                        t
+                    }
+                    7 => {
+                        // a longer inline content, replaced by all but the last character, then the last pushed
+                        let chars: Vec<char> = st.chars().collect();
+                        if let Some((last, init)) = chars.split_last() {
+                            let init: String = init.iter().collect();
+                            let mut t = Text::new("0123456789abcdefghij");
+                            t.clone_from(&Text::new(&init));
+                            t.push(*last);
+                            t
+                        } else {
+                            Text::empty()
+                        }
+                    }
+                    8 => {
+                        let mut t = Text::new("tail-to-forget");
+                        t.clear();
+                        t.extend(st.chars());
+                        t
+                    }
+                    _ => Text::from(st),
+                }
+            };
+            let mut texts: Vec<(usize, u64, Text)> = vec![];
+            for (si, st) in strings.iter().enumerate() {
+                let mut hows: Vec<u64> = (0..10).collect();
+                rng.shuffle(&mut hows);
+                for how in hows.into_iter().take(rng.range(3, 6) as usize) {
+                    let t = build(rng, st, how);
+                    if t.as_str() != st.as_str() {
+                        out.violation(P, format!("text-history/content/how={how}"), "a Text built through this history does not hold the characters it was given", json!({"wanted": st, "got": t.as_str()}));
+                        continue;
+                    }
+                    out.sig(&(st, how));
+                    texts.push((si, how, t));
+                }
+            }
+            out.nontrivial = texts.len() >= 4;
+            // three wrappings of every text
+            let wrap = |t: &Text, w: u8| -> Value {
+                match w {
+                    0 => Value::Text(t.clone()),
+                    1 => Value::Record(vec![Attr::of((t.clone(), 1))], vec![]),
+                    _ => Value::Record(vec![], vec![Item::Slot(Value::Text(t.clone()), Value::Int32Value(1))]),
+                }
+            };
+            for w in 0..3u8 {
+                let vals: Vec<(usize, u64, Value)> = texts.iter().map(|(si, how, t)| (*si, *how, wrap(t, w))).collect();
+                for (i, (sa, ha, a)) in vals.iter().enumerate() {
+                    for (sb, hb, b) in vals.iter().skip(i) {
+                        pair_laws(a, b, out);
+                        pair_laws(b, a, out);
+                        let same = strings[*sa] == strings[*sb];
+                        if same && (a != b || a.cmp(b) != Ordering::Equal || hash_of(a) != hash_of(b)) {
+                            let (h1, h2) = if ha <= hb { (ha, hb) } else { (hb, ha) };
+                            out.violation(
+                                P,
+                                format!("text-history/same-characters-differ/wrap={w}/hows={h1}-{h2}"),
+                                format!("two values with the same characters: == is {}, cmp is {:?}, hashes {}", a == b, a.cmp(b), if hash_of(a) == hash_of(b) { "agree" } else { "differ" }),
+                                json!({"text": strings[*sa], "history_a": ha, "history_b": hb}),
+                            );
+                        } else if !same && a == b {
+                            out.violation(P, format!("text-history/different-characters-equal/wrap={w}"), "two values with different characters are ==", json!({"a": strings[*sa], "b": strings[*sb]}));
+                        }
+                    }
+                }
+            }
+            // the clone of a value keeps all of this
+            for (si, how, t) in &texts {
+                let c = t.clone();
+                if c != *t || hash_of(&Value::Text(c.clone())) != hash_of(&Value::Text(t.clone())) {
+                    out.violation(P, format!("text-history/clone-differs/how={how}"), "a clone of a Text is not == to it (or hashes differently)", json!({"text": strings[*si]}));
                 }
             }
         },
